@@ -1,3 +1,7 @@
+(* AR_complete re-proved for the PROPOSED system DE.AbstractRaft: c_L gets a third case (the commit index a leader
+   starts its term with is a committed prefix of an earlier term: [inh]), c_Llen is new, the commit witnesses
+   (cwit / sinv, formerly AR_sms) move here because cL_step needs them at SBecomeLeader; cinv and sinv are proved by one
+   joint induction (reach_both); leader completeness follows from the invariant by strong induction on the earlier term. *)
 (* AR_complete — leader completeness (T3). *)
 From Coq Require Import NArith List Bool Lia ZifyBool ZifyN PeanoNat.
 From DE Require Import AbstractRaft.
@@ -23,6 +27,19 @@ Definition covers (last : N * N) (t i : N) : Prop :=
 
 Definition qacked (nodes : list N) (s : astate) (t i : N) : Prop :=
   exists vs, majority nodes vs /\ forall v, In v vs -> acked s v t i.
+
+(* the committed prefix of n is a committed prefix of the leader log of some term tw <= cur n *)
+Definition cwit (s : astate) (n tw : N) : Prop :=
+  tw <= a_cur s n /\ (exists m, In (m,tw) (g_leaders s)) /\
+  a_commit s n <= g_lcommit s tw /\ holds s tw (a_commit s n) (a_log s n).
+
+Definition sinv (s : astate) : Prop := forall n, a_commit s n = 0 \/ exists tw, cwit s n tw.
+
+(* the commit index the leader of t started its term with (AbstractRaft, SBecomeLeader): a committed prefix of
+   an earlier term tw that its log holds *)
+Definition inh (s : astate) (t : N) : Prop :=
+  exists tw, tw < t /\ (exists m, In (m,tw) (g_leaders s)) /\
+    g_lcommit s t <= g_lcommit s tw /\ holds s tw (g_lcommit s t) (g_llog s t).
 
 (* ------------------------------------------------------------------ *)
 (* small facts                                                          *)
@@ -240,12 +257,13 @@ Record cinv (s : astate) : Prop := {
   c_E : forall l' t', In (l',t') (g_leaders s) ->
         exists Q, majority nodes Q /\ forall v, In v Q -> In (v,t',l') (g_votes s) /\
           forall t i, t < t' -> acked s v t i -> own s t i -> mid s t i t' -> holds s t i (g_llog s t');
-  c_L : forall t, g_lcommit s t = 0 \/ (own s t (g_lcommit s t) /\ qacked nodes s t (g_lcommit s t))
+  c_L : forall t, g_lcommit s t = 0 \/ (own s t (g_lcommit s t) /\ qacked nodes s t (g_lcommit s t)) \/ inh s t;
+  c_Llen : forall t, g_lcommit s t <= N.of_nat (length (g_llog s t))
 }.
 
 Lemma cinv_init : cinv ainit.
 Proof.
-  constructor; cbn; intros; try contradiction; auto.
+  constructor; cbn; intros; try contradiction; auto; try lia.
   destruct H as [_ [(m & _ & [])|[]]].
 Qed.
 
@@ -405,42 +423,100 @@ Proof.
   intros B H (vs & M & Hv). exists vs. split; [exact M|]. intros v Hin. eapply acked_fwd; eauto.
 Qed.
 
-Lemma cL_step s s' : binv nodes s -> cinv s -> astep nodes s s' ->
-  forall tc, g_lcommit s' tc = 0 \/ (own s' tc (g_lcommit s' tc) /\ qacked nodes s' tc (g_lcommit s' tc)).
+Lemma lcommit_no_leader s t : binv nodes s -> cinv s -> (forall m, ~ In (m,t) (g_leaders s)) -> g_lcommit s t = 0.
 Proof.
-  intros B C H tc.
-  assert (Old : g_lcommit s tc = 0 \/
-                (own s' tc (g_lcommit s tc) /\ qacked nodes s' tc (g_lcommit s tc))).
-  { destruct (c_L _ C tc) as [Z|[O Q]]; [now left|right]. split.
-    - destruct Q as (vs & M & Hv). destruct vs as [|v0 vs].
-      + destruct M as (_ & _ & M). cbn in M. lia.
-      + destruct (Hv v0 (or_introl eq_refl)) as [Hi _]. eapply own_fwd; eauto.
-    - eapply qacked_fwd; eauto. }
-  step_cases H; try exact Old.
-  unfold upd. destruct (N.eqb_spec tc (a_cur s0 n)) as [->|Hne]; [|exact Old].
-  right. destruct (N.max_spec (g_lcommit s0 (a_cur s0 n)) N) as [[Hlt ->]|[Hge ->]].
-  - pose proof (b_leader_log _ _ B _ Hl) as EL. split.
-    + split; [lia|]. cbn [g_llog]. now rewrite <- EL.
-    + exists vs. split; [exact Hmaj|]. intros v Hv. split.
-      * cbn [g_llog]. rewrite <- EL. exact HN.
-      * cbn [g_acks g_leaders]. destruct (Hvs v Hv) as [->|(m & Hm & Hin)]; [now right|left; eauto].
-  - destruct Old as [Z|Old]; [lia|exact Old].
+  intros B C Nl. pose proof (c_Llen _ C t) as H. rewrite (b_llog_nil _ _ B _ Nl) in H. cbn in H. lia.
 Qed.
 
-Lemma cinv_step s s' : binv nodes s -> linv s -> cinv s -> astep nodes s s' -> cinv s'.
+Lemma lcommit_mono_leader s s' : astep nodes s s' -> forall t', (exists m, In (m,t') (g_leaders s)) ->
+  g_lcommit s t' <= g_lcommit s' t'.
 Proof.
-  intros B L C H. constructor.
+  intros H t' [m Hm]. step_cases H; try lia.
+  - unfold upd. destruct (N.eqb_spec t' (a_cur s0 n)) as [->|Hne]; [|lia]. exfalso. eapply Hnl; eauto.
+  - unfold upd. destruct (N.eqb_spec t' (a_cur s0 n)); subst; lia.
+Qed.
+
+Lemma cLlen_step s s' : binv nodes s -> cinv s -> sinv s -> astep nodes s s' ->
+  forall tc, g_lcommit s' tc <= N.of_nat (length (g_llog s' tc)).
+Proof.
+  intros B C S H tc.
+  assert (Old : g_lcommit s tc <= N.of_nat (length (g_llog s' tc))).
+  { pose proof (c_Llen _ C tc). pose proof (llog_len_step s s' tc B H). lia. }
+  step_cases H; try exact Old.
+  - (* SBecomeLeader *)
+    unfold upd in *. destruct (N.eqb_spec tc (a_cur s0 n)) as [E|Hne]; [|exact Old]. clear Old E.
+    destruct (S n) as [Z|[tw (W1 & W2 & W3 & W4)]]; [lia|].
+    eapply prefix_len; [exact W4|]. pose proof (c_Llen _ C tw). lia.
+  - (* SAdvanceCommit *)
+    unfold upd in *. destruct (N.eqb_spec tc (a_cur s0 n)) as [E|Hne]; [|exact Old]. subst tc.
+    pose proof (b_leader_log _ _ B _ Hl) as EL. rewrite <- EL in Old |- *. lia.
+Qed.
+
+Lemma cL_of s' tc c : g_lcommit s' tc = c ->
+  (c = 0 \/ (own s' tc c /\ qacked nodes s' tc c) \/
+   (exists tw, tw < tc /\ (exists m, In (m,tw) (g_leaders s')) /\ c <= g_lcommit s' tw /\ holds s' tw c (g_llog s' tc))) ->
+  g_lcommit s' tc = 0 \/ (own s' tc (g_lcommit s' tc) /\ qacked nodes s' tc (g_lcommit s' tc)) \/ inh s' tc.
+Proof. intros <- H. exact H. Qed.
+
+Ltac use_cL c := match goal with |- _ \/ _ \/ inh ?x ?t => apply (cL_of x t c) end.
+
+Lemma cL_step s s' : binv nodes s -> cinv s -> sinv s -> astep nodes s s' ->
+  forall tc, g_lcommit s' tc = 0 \/ (own s' tc (g_lcommit s' tc) /\ qacked nodes s' tc (g_lcommit s' tc)) \/ inh s' tc.
+Proof.
+  intros B C S H tc.
+  assert (Old : g_lcommit s tc = 0 \/
+                (own s' tc (g_lcommit s tc) /\ qacked nodes s' tc (g_lcommit s tc)) \/
+                (exists tw, tw < tc /\ (exists m, In (m,tw) (g_leaders s')) /\
+                   g_lcommit s tc <= g_lcommit s' tw /\ holds s' tw (g_lcommit s tc) (g_llog s' tc))).
+  { destruct (c_L _ C tc) as [Z|[[O Q]|(tw & Htw & (m & Hm) & Hle & Hh)]]; [now left|right; left|right; right].
+    - split.
+      + destruct Q as (vs & M & Hv). destruct vs as [|v0 vs].
+        * destruct M as (_ & _ & M). cbn in M. lia.
+        * destruct (Hv v0 (or_introl eq_refl)) as [Hi _]. eapply own_fwd; eauto.
+      + eapply qacked_fwd; eauto.
+    - exists tw. split; [exact Htw|]. split; [exists m; eapply leaders_mono; eauto|].
+      split; [pose proof (lcommit_mono_leader s s' H tw (ex_intro _ m Hm)); lia|].
+      unfold holds in *.
+      rewrite (llog_prefix_step s s' tc _ B H (c_Llen _ C tc)).
+      rewrite (llog_prefix_step s s' tw (g_lcommit s tc) B H); [exact Hh|].
+      pose proof (c_Llen _ C tw). lia. }
+  step_cases H; try (unfold inh; proj_simpl; exact Old).
+  - (* SBecomeLeader *)
+    destruct (N.eqb_spec tc (a_cur s0 n)) as [E|Hne].
+    2:{ use_cL (g_lcommit s0 tc); [|exact Old].
+        cbn [g_lcommit]. unfold upd. destruct (N.eqb_spec tc (a_cur s0 n)); [contradiction|reflexivity]. }
+    subst tc. clear Old.
+    use_cL (a_commit s0 n); [cbn [g_lcommit]; unfold upd; now rewrite N.eqb_refl|].
+    destruct (S n) as [Z|[tw (W1 & (m & W2) & W3 & W4)]]; [now left|right; right].
+    assert (Hne : tw <> a_cur s0 n) by (intros ->; eapply Hnl; eauto).
+    exists tw. split; [lia|]. split; [exists m; now right|].
+    unfold holds in *. cbn [g_lcommit g_llog]. unfold upd.
+    destruct (N.eqb_spec tw (a_cur s0 n)) as [E|_]; [contradiction|].
+    rewrite N.eqb_refl. split; [exact W3|exact W4].
+  - (* SAdvanceCommit *)
+    destruct (N.eqb_spec tc (a_cur s0 n)) as [E|Hne].
+    2:{ use_cL (g_lcommit s0 tc); [|exact Old].
+        cbn [g_lcommit]. unfold upd. destruct (N.eqb_spec tc (a_cur s0 n)); [contradiction|reflexivity]. }
+    subst tc.
+    use_cL (N.max (g_lcommit s0 (a_cur s0 n)) N); [cbn [g_lcommit]; unfold upd; now rewrite N.eqb_refl|].
+    destruct (N.max_spec (g_lcommit s0 (a_cur s0 n)) N) as [[Hlt E]|[Hge E]]; rewrite E in *; clear E.
+    + right. left. pose proof (b_leader_log _ _ B _ Hl) as EL. split.
+      * split; [lia|]. cbn [g_llog]. now rewrite <- EL.
+      * exists vs. split; [exact Hmaj|]. intros v Hv. split.
+        -- cbn [g_llog]. rewrite <- EL. exact HN.
+        -- cbn [g_acks g_leaders]. destruct (Hvs v Hv) as [->|(m & Hm & Hin)]; [now right|left; eauto].
+    + destruct Old as [Z|Old]; [lia|right; exact Old].
+Qed.
+
+Lemma cinv_step s s' : binv nodes s -> linv s -> cinv s -> sinv s -> astep nodes s s' -> cinv s'.
+Proof.
+  intros B L C S H. constructor.
   - eapply cV_step; eauto.
   - eapply cW_step; eauto.
   - eapply cC_step; eauto.
   - eapply cE_step; eauto.
   - eapply cL_step; eauto.
-Qed.
-
-Lemma reach_cinv s : reach nodes s -> cinv s.
-Proof.
-  induction 1 as [|s s' R IH H]; [exact cinv_init|].
-  eapply cinv_step; eauto using reach_binv, reach_linv.
+  - eapply cLlen_step; eauto.
 Qed.
 
 (* ------------------------------------------------------------------ *)
@@ -458,30 +534,118 @@ Proof.
   intros t'' l'' H1 H2 Hl''. apply (IH t'' H2 l'' Hl'' t i H1); auto. exists vs. auto.
 Qed.
 
+(* committed prefixes, from the invariant alone: by strong induction on the earlier term (an inherited commit index
+   is a committed prefix of a still earlier term) *)
+Lemma complete_cinv s : cinv s -> forall t t' l', t < t' -> In (l',t') (g_leaders s) ->
+  forall i, i <= g_lcommit s t -> prefix (g_llog s t') i = prefix (g_llog s t) i.
+Proof.
+  intros C t. induction t as [t IH] using (well_founded_induction N.lt_wf_0).
+  intros t' l' Hlt Hin i Hi.
+  destruct (c_L _ C t) as [Z|[[O Q]|(tw & Htw & _ & Hle & Hh)]].
+  - assert (i = 0) by lia. subst i. reflexivity.
+  - pose proof (complete_quorum s C t' l' Hin t _ Hlt Q O) as Hh. eapply prefix_le; eauto.
+  - unfold holds in Hh. rewrite (prefix_le _ _ _ i Hh Hi). apply (IH tw Htw t' l'); [lia|exact Hin|lia].
+Qed.
+
+Lemma committed_in_later_inv s : cinv s -> forall t t' l' i, t <= t' -> In (l',t') (g_leaders s) ->
+  i <= g_lcommit s t -> prefix (g_llog s t') i = prefix (g_llog s t) i.
+Proof.
+  intros C t t' l' i Hle Hin Hi. destruct (N.eqb_spec t t') as [->|Hne]; [reflexivity|].
+  eapply complete_cinv; eauto. lia.
+Qed.
+
+(* ------------------------------------------------------------------ *)
+(* the commit witnesses (moved here from AR_sms: cL_step needs them at SBecomeLeader) *)
+(* ------------------------------------------------------------------ *)
+Lemma sinv_init : sinv ainit.
+Proof. intros n. now left. Qed.
+
+Lemma cwit_keep s s' n' tw : binv nodes s -> cinv s -> astep nodes s s' ->
+  a_commit s' n' = a_commit s n' ->
+  (prefix (a_log s' n') (a_commit s n') = prefix (a_log s n') (a_commit s n')) ->
+  cwit s n' tw -> cwit s' n' tw.
+Proof.
+  intros B C H Ec El (H1 & (m & H2) & H3 & H4).
+  split; [pose proof (cur_mono nodes s s' H n'); lia|].
+  split; [exists m; eapply leaders_mono; eauto|].
+  split; [rewrite Ec; pose proof (lcommit_mono_leader s s' H tw (ex_intro _ m H2)); lia|].
+  unfold holds in *. rewrite Ec, El, H4. symmetry. apply llog_prefix_step; auto.
+  pose proof (c_Llen _ C tw). lia.
+Qed.
+
+Lemma sinv_step s s' : binv nodes s -> linv s -> cinv s -> sinv s -> astep nodes s s' -> sinv s'.
+Proof.
+  intros B L C S H n'.
+  pose proof (fun tw Ec El => cwit_keep s s' n' tw B C H Ec El) as Keep.
+  pose proof (c_Llen _ C) as LL.
+  pose proof (committed_in_later_inv s C) as CL.
+  assert (Same : a_commit s' n' = a_commit s n' -> a_log s' n' = a_log s n' ->
+                 a_commit s' n' = 0 \/ exists tw, cwit s' n' tw).
+  { intros Ec El. destruct (S n') as [Z|[tw W]]; [left; congruence|right].
+    exists tw. apply Keep; auto. now rewrite El. }
+  step_cases H; try (apply Same; reflexivity).
+  - (* SLeaderAppend *)
+    unfold upd in *. destruct (N.eqb_spec n' n) as [E|Hne]; [|apply Same; reflexivity]. subst n'.
+    destruct (S n) as [Z|[tw W]]; [now left|right]. exists tw. apply Keep; auto.
+    apply prefix_app_le. destruct W as (_ & _ & W3 & W4). unfold holds in W4.
+    eapply prefix_len; [exact W4|]. specialize (LL tw). lia.
+  - (* SAppendAccept *)
+    clear Keep. unfold upd in *. destruct (N.eqb_spec n' f) as [E|Hne]; [|apply Same; reflexivity]. subst n'.
+    clear Same. unfold cwit, holds. cbn [a_cur a_commit a_log g_leaders g_lcommit g_llog].
+    rewrite !N.eqb_refl.
+    set (R0 := merge_from (a_log s0 f) (N.to_nat prev) (slice (g_llog s0 t) prev k)).
+    assert (E1 : prefix R0 (prev + k) = prefix (g_llog s0 t) (prev + k)).
+    { eapply accept_result; eauto using l_glog_log, l_glog_llog. }
+    destruct (N.max_spec (a_commit s0 f) (N.min lc (prev + k))) as [[Hlt ->]|[Hge ->]].
+    + right. exists t. split; [lia|]. split; [eauto|]. split; [lia|].
+      eapply prefix_le; [exact E1|lia].
+    + destruct (S f) as [Z|[tw (W1 & W2 & W3 & W4)]]; [now left|right]. unfold holds in W4.
+      exists tw. split; [lia|]. split; [exact W2|]. split; [exact W3|].
+      assert (E0 : prefix (a_log s0 f) (a_commit s0 f) = prefix (g_llog s0 t) (a_commit s0 f)).
+      { rewrite W4. symmetry. eapply CL; eauto. lia. }
+      unfold R0. rewrite (accept_keeps _ _ prev k _ Hprev E0). congruence.
+  - (* SAdvanceCommit *)
+    unfold upd in *. destruct (N.eqb_spec n' n) as [E|Hne]; [|apply Same; reflexivity]. subst n'.
+    right. exists (a_cur s0 n). unfold cwit, holds. cbn [a_cur a_commit a_log g_leaders g_lcommit g_llog].
+    rewrite !N.eqb_refl. split; [lia|]. split; [eauto|]. split; [lia|].
+    now rewrite (b_leader_log _ _ B _ Hl).
+Qed.
+
+Lemma reach_both s : reach nodes s -> cinv s /\ sinv s.
+Proof.
+  induction 1 as [|s s' R [IC IS] H]; [split; [exact cinv_init|exact sinv_init]|].
+  pose proof (reach_binv nodes s R) as B. pose proof (reach_linv nodes s R) as L.
+  split; [eapply cinv_step; eauto|eapply sinv_step; eauto].
+Qed.
+
+Lemma reach_cinv s : reach nodes s -> cinv s.
+Proof. intros R. apply (reach_both s R). Qed.
+
+Lemma reach_sinv s : reach nodes s -> sinv s.
+Proof. intros R. apply (reach_both s R). Qed.
+
 (* T3 *)
 Theorem leader_completeness : forall s, reach nodes s ->
   forall t t' l', t < t' -> In (l',t') (g_leaders s) ->
   forall i, i <= g_lcommit s t -> i <= N.of_nat (length (g_llog s t)) ->
   prefix (g_llog s t') i = prefix (g_llog s t) i.
 Proof.
-  intros s R t t' l' Hlt Hin i Hi Hlen.
-  pose proof (reach_cinv s R) as C.
-  destruct (c_L _ C t) as [Z|[O Q]].
-  - assert (i = 0) by lia. subst i. reflexivity.
-  - pose proof (complete_quorum s C t' l' Hin t _ Hlt Q O) as Hh.
-    eapply prefix_le; eauto.
+  intros s R t t' l' Hlt Hin i Hi _. eapply complete_cinv; eauto using reach_cinv.
 Qed.
 
-(* the committed index of a term is within that term's leader log, is an entry of that term, and is
-   acknowledged by a majority *)
-Theorem lcommit_facts : forall s, reach nodes s -> forall t, g_lcommit s t = 0 \/
-  (g_lcommit s t <= N.of_nat (length (g_llog s t)) /\ term_at (g_llog s t) (g_lcommit s t) = t /\
-   qacked nodes s t (g_lcommit s t)).
+(* the committed index of a term is within that term's leader log; it is 0, or an entry of that term acknowledged
+   by a majority, or the commit index the leader started with: a committed prefix of an earlier term *)
+Theorem lcommit_facts : forall s, reach nodes s -> forall t,
+  g_lcommit s t <= N.of_nat (length (g_llog s t)) /\
+  (g_lcommit s t = 0 \/
+   (term_at (g_llog s t) (g_lcommit s t) = t /\ qacked nodes s t (g_lcommit s t)) \/
+   (exists tw, tw < t /\ g_lcommit s t <= g_lcommit s tw /\
+      prefix (g_llog s t) (g_lcommit s t) = prefix (g_llog s tw) (g_lcommit s t))).
 Proof.
-  intros s R t. destruct (c_L _ (reach_cinv s R) t) as [Z|[[O1 O2] Q]]; [now left|right].
-  repeat split; auto. destruct Q as (vs & M & Hv). destruct vs as [|v0 vs].
-  - destruct M as (_ & _ & M). cbn in M. lia.
-  - apply (Hv v0 (or_introl eq_refl)).
+  intros s R t. pose proof (reach_cinv s R) as C. split; [apply (c_Llen _ C)|].
+  destruct (c_L _ C t) as [Z|[[[O1 O2] Q]|(tw & H1 & _ & H2 & H3)]]; [now left|right; left|right; right].
+  - split; assumption.
+  - exists tw. repeat split; assumption.
 Qed.
 
 End Complete.
